@@ -4,14 +4,18 @@ import (
 	"fmt"
 	"io"
 	"math"
+	"math/big"
 	"regexp"
 	"strconv"
 	"strings"
 	"unicode"
+	"unicode/utf8"
 
 	"golang.org/x/perf/benchfmt"
+	"golang.org/x/perf/benchmath"
 	"golang.org/x/perf/benchproc"
 	"golang.org/x/perf/benchunit"
+	bt "golang.org/x/perf/cmd/benchstat/verifbridge"
 	"verifharness/internal/hx"
 )
 
@@ -24,6 +28,9 @@ type c04Input struct {
 	Unit2   string   `json:"unit2,omitempty"`
 	Val2    string   `json:"val2,omitempty"`
 	Lookups []string `json:"lookups,omitempty"`
+	Better  string   `json:"better,omitempty"` // "Unit <unit> better=<better> assume=<assume>", then GetBetter / GetAssumption
+	Assume  string   `json:"assume,omitempty"`
+	ABLook  []string `json:"better_assume_lookups,omitempty"`
 }
 
 // unicodeRanges lists the maximal rune ranges on which f holds.
@@ -81,6 +88,133 @@ func c04Meta(m *benchfmt.UnitMetadata) hx.Sx {
 	return hx.L(hx.L(hx.S(m.Unit), hx.S(m.OrigUnit), hx.S(m.Value)))
 }
 
+
+// ---------- the known finding C04_scale_factor_out_of_range: tag from the input ----------
+
+// c04Scales lists, in token order, the decimal exponent (-9 for "ns", +6 for
+// "MB") of every normalisable numerator token of u.  Own tokeniser (the unit
+// grammar of the property), not benchunit's.
+func c04Scales(u string) (sc []int) {
+	denom := false
+	start := 0
+	flush := func(tok string) {
+		if denom {
+			return
+		}
+		switch tok {
+		case "ns":
+			sc = append(sc, -9)
+		case "MB":
+			sc = append(sc, 6)
+		}
+	}
+	for i := 0; i < len(u); {
+		r, w := utf8.DecodeRuneInString(u[i:])
+		if r == '*' || r == '/' || r == '-' || unicode.IsSpace(r) {
+			flush(u[start:i])
+			if r == '*' {
+				denom = false
+			} else if r == '/' {
+				denom = true
+			}
+			start = i + w
+		}
+		i += w
+	}
+	flush(u[start:])
+	return sc
+}
+
+func c04Decomp(x float64) (*big.Int, int) {
+	b := math.Float64bits(math.Abs(x))
+	e := int(b >> 52 & 0x7ff)
+	f := b & (1<<52 - 1)
+	if e == 0 {
+		return new(big.Int).SetUint64(f), -1074
+	}
+	return new(big.Int).SetUint64(f | 1<<52), e - 1075
+}
+
+// a*2^ea <= b*2^eb
+func c04LeScaled(a *big.Int, ea int, b *big.Int, eb int) bool {
+	e0 := ea
+	if eb < e0 {
+		e0 = eb
+	}
+	x := new(big.Int).Lsh(a, uint(ea-e0))
+	y := new(big.Int).Lsh(b, uint(eb-e0))
+	return x.Cmp(y) <= 0
+}
+
+// c04ScaledOK: is got an acceptable binary64 report of the real number
+// v * 10^E (n components)?  The same acceptance as Model/UnitsSpec.v scaled_ok
+// (used only to decide the TAG of an input; the verdict is Coq's).
+func c04ScaledOK(n, E int, v, got float64) bool {
+	switch {
+	case math.IsNaN(v):
+		return math.IsNaN(got)
+	case v == 0 || math.IsInf(v, 0):
+		return math.Float64bits(got) == math.Float64bits(v)
+	}
+	if math.IsNaN(got) || math.Signbit(got) != math.Signbit(v) {
+		return false
+	}
+	K := big.NewInt(int64(2 * (n + 1)))
+	pow10 := func(k int) *big.Int {
+		if k < 0 {
+			k = 0
+		}
+		return new(big.Int).Exp(big.NewInt(10), big.NewInt(int64(k)), nil)
+	}
+	P, B := pow10(E), pow10(-E)
+	m, e := c04Decomp(v)
+	mP := new(big.Int).Mul(m, P)
+	switch {
+	case got == 0:
+		return c04LeScaled(mP, e, new(big.Int).Mul(K, B), -1074)
+	case math.IsInf(got, 0):
+		t := new(big.Int).Sub(new(big.Int).Lsh(big.NewInt(1), 53), K)
+		return c04LeScaled(t.Mul(t, B), 971, mP, e)
+	}
+	m2, e2 := c04Decomp(got)
+	e0 := e
+	if e2 < e0 {
+		e0 = e2
+	}
+	G := new(big.Int).Lsh(m2, uint(e2-e0))
+	G.Mul(G, B)
+	X := new(big.Int).Lsh(mP, uint(e-e0))
+	d := new(big.Int).Sub(G, X)
+	d.Abs(d)
+	lim := new(big.Int).Lsh(K, uint(e2-e0))
+	lim.Mul(lim, B)
+	return d.Cmp(lim) <= 0
+}
+
+const c04FindingTag = "c04_factor_out_of_range"
+
+// c04Deviates simulates the mechanism of the known finding on the INPUT
+// (u, v): tidy.go accumulates ONE binary64 factor in token order (/1e9 per
+// "ns", *1e6 per "MB"); the deviation occurs iff that number leaves the
+// normal range on the way AND the product of v with it is not an acceptable
+// report of the real product v * 10^E.
+func c04Deviates(u string, v float64) bool {
+	sc := c04Scales(u)
+	f, E, left := 1.0, 0, false
+	for _, s := range sc {
+		if s < 0 {
+			f /= 1e9
+		} else {
+			f *= 1e6
+		}
+		E += s
+		if f == 0 || math.IsInf(f, 0) || f < 0x1p-1022 {
+			left = true
+		}
+	}
+	return left && !c04ScaledOK(len(sc), E, v, v*f)
+}
+
 // c04One runs the real code on one (unit, value) pair.
 func c04One(o *hx.Out, r *hx.Rng, u string, v float64, tags ...string) (err error) {
 	defer func() {
@@ -92,7 +226,7 @@ func c04One(o *hx.Out, r *hx.Rng, u string, v float64, tags ...string) (err erro
 	tv, tu := benchunit.Tidy(v, u)
 	tv2, tu2 := benchunit.Tidy(tv, tu)
 
-	rd, md, fl := hx.L(), hx.L(), []hx.Sx{}
+	rd, md, fl, ab := hx.L(), hx.L(), []hx.Sx{}, hx.L()
 	if c04Fieldable(u) {
 		// the reader on "BenchmarkX 1 <v> <u>"
 		text := "BenchmarkX 1 " + c04FmtFloat(v) + " " + u + "\n"
@@ -167,8 +301,32 @@ func c04One(o *hx.Out, r *hx.Rng, u string, v float64, tags ...string) (err erro
 			gets = append(gets, hx.L(hx.S(x), c04Meta(mr.Units().Get(x, "better"))))
 		}
 		md = hx.L(hx.L(hx.S(u2), hx.S(val2), hx.List(recs), hx.List(gets)))
+
+		// GetBetter / GetAssumption: "Unit u better=.. assume=.." through a fresh
+		// reader; every looked-up unit also on an EMPTY map (built-in defaults)
+		bval := []string{"higher", "lower", "higher", "lower", "sideways"}[r.Intn(5)]
+		aval := []string{"exact", "exact", "nothing", "normal"}[r.Intn(4)]
+		in.Better, in.Assume = bval, aval
+		ar := benchfmt.NewReader(strings.NewReader("Unit "+u+" better="+bval+" assume="+aval+"\n"), "f")
+		nmeta := 0
+		for ar.Scan() {
+			if _, ok := ar.Result().(*benchfmt.UnitMetadata); ok {
+				nmeta++
+			}
+		}
+		if nmeta != 2 {
+			return fmt.Errorf("unit line for %q delivered %d metadata records", u, nmeta)
+		}
+		var empty benchfmt.UnitMetadataMap
+		var es []hx.Sx
+		for _, x := range []string{u, tu, u + "x", "ns/op", "sec/op", "MB/s", "B/s", "MB/op", "B/op", "allocs/op", "x-ns/op"} {
+			in.ABLook = append(in.ABLook, strconv.Quote(x))
+			es = append(es, hx.L(hx.S(x), hx.I(empty.GetBetter(x)), hx.I(ar.Units().GetBetter(x)),
+				hx.Bool(ar.Units().GetAssumption(x) == benchmath.Assumption(benchmath.AssumeExact))))
+		}
+		ab = hx.L(hx.L(hx.S(bval), hx.S(aval), hx.List(es)))
 	}
-	c := hx.L(hx.I(1), hx.S(u), hx.F64(v), hx.L(hx.F64(tv), hx.S(tu)), hx.L(hx.F64(tv2), hx.S(tu2)), rd, md, hx.List(fl))
+	c := hx.L(hx.I(1), hx.S(u), hx.F64(v), hx.L(hx.F64(tv), hx.S(tu)), hx.L(hx.F64(tv2), hx.S(tu2)), rd, md, hx.List(fl), ab)
 	rew := tu != u
 	switch {
 	case rew && c04Fieldable(u):
@@ -196,6 +354,10 @@ func c04One(o *hx.Out, r *hx.Rng, u string, v float64, tags ...string) (err erro
 	}
 	if rew {
 		tags = append(tags, "unit-rewritten")
+	}
+	if c04Deviates(u, v) {
+		o.Count("class:factor-leaves-normal-range:product-is-not-the-scaled-value")
+		tags = append(tags, c04FindingTag)
 	}
 	o.Add(c, in, u+"\x00"+in.Bits, rew, tags...)
 	return nil
@@ -288,6 +450,7 @@ func c04SeqF(o *hx.Out, terms []c04Term, list bool, lines []c04SeqLine, lookups 
 			candList = append(candList, u)
 		}
 	}
+	dev := false
 	items := make([]hx.Sx, len(lines))
 	recs := make([][]hx.Sx, len(lines))
 	seen := make([]bool, len(lines))
@@ -312,6 +475,10 @@ func c04SeqF(o *hx.Out, terms []c04Term, list bool, lines []c04SeqLine, lookups 
 					pv = v.OrigValue
 				}
 				wr = append(wr, hx.L(hx.S(l.us[i]), hx.F64(pv)))
+				if !dev && c04Deviates(l.us[i], pv) {
+					dev = true
+					tags = append(tags, c04FindingTag)
+				}
 				_, tu := benchunit.Tidy(1, l.us[i])
 				cand(l.us[i])
 				cand(tu)
@@ -861,6 +1028,7 @@ func c04TidySeq(o *hx.Out, r *hx.Rng, us []string, tags ...string) (err error) {
 		}
 	}()
 	in := c04TidySeqInput{Kind: "tidy-sequence"}
+	dev := false
 	var calls []hx.Sx
 	for _, u := range us {
 		v := c04Value(r)
@@ -868,6 +1036,10 @@ func c04TidySeq(o *hx.Out, r *hx.Rng, us []string, tags ...string) (err error) {
 			v = float64(1 + r.Intn(1000))
 		}
 		tv, tu := benchunit.Tidy(v, u)
+		if !dev && c04Deviates(u, v) {
+			dev = true
+			tags = append(tags, c04FindingTag)
+		}
 		calls = append(calls, hx.L(hx.S(u), hx.F64(v), hx.L(hx.F64(tv), hx.S(tu))))
 		in.Calls = append(in.Calls, c04TidyCall{Unit: strconv.Quote(u), Value: c04FmtFloat(v)})
 	}
@@ -1158,6 +1330,279 @@ func c04GenMany(o *hx.Out, r *hx.Rng, n int, kmax int) error {
 	return nil
 }
 
+
+// c04GenExtreme: units with SO MANY normalisable numerator components that the
+// scale 10^(6 #MB - 9 #ns) - or a prefix of it, in token order - is outside
+// the binary64 range (35+ "ns": 1e-315 is subnormal, 36+: 0; 52+ "MB": +Inf),
+// next to units just below those counts and units in which ns and MB
+// alternate so that every prefix stays in range.  Values: every special value
+// (0, -0, +/-Inf, NaN, subnormals, max) and finite ones whose real product is
+// representable although the scale is not (5e-324 * 1e312, 1e300 * 1e-324).
+// Each unit through Tidy twice + reader + metadata + filters (c04One); some
+// through ONE reader next to the base spelling (c04Seq) and through direct
+// Tidy calls (c04TidySeq).
+func c04GenExtreme(o *hx.Out, r *hx.Rng, n int) error {
+	vals := append([]float64{}, c04Special...)
+	vals = append(vals, 1e-320, -1e-320, 1e-300, -1e300, 4.9e-310, 1e308, 1e-9, 0.001, 7, -2.5)
+	join := func(toks []string, fieldable bool) (u, base string) {
+		var su, sb strings.Builder
+		for i, t := range toks {
+			if i > 0 {
+				sp := "*"
+				switch {
+				case r.Chance(0.25):
+					sp = "-"
+				case !fieldable && r.Chance(0.05):
+					sp = " "
+				}
+				su.WriteString(sp)
+				sb.WriteString(sp)
+			}
+			su.WriteString(t)
+			switch t {
+			case "ns":
+				sb.WriteString("sec")
+			case "MB":
+				sb.WriteString("B")
+			default:
+				sb.WriteString(t)
+			}
+		}
+		tail := []string{"", "/op", "/ns", "-x/MB", "/s-ns"}[r.Intn(5)]
+		return su.String() + tail, sb.String() + tail
+	}
+	rep := func(t string, k int) []string {
+		out := make([]string, k)
+		for i := range out {
+			out[i] = t
+		}
+		return out
+	}
+	one := func(u, base string, v float64) error {
+		sc := c04Scales(u)
+		E := 0
+		for _, x := range sc {
+			E += x
+		}
+		switch {
+		case E < -323:
+			o.Count("class:extreme:scale-below-binary64-range")
+		case E < -307:
+			o.Count("class:extreme:scale-subnormal")
+		case E > 308:
+			o.Count("class:extreme:scale-above-binary64-range")
+		default:
+			o.Count("class:extreme:scale-in-range")
+		}
+		switch r.Intn(6) {
+		case 0:
+			if c04Fieldable(u) {
+				lines := []c04SeqLine{{us: []string{u}, vs: []float64{v}}, {us: []string{base, u}, vs: []float64{c04Value(r), v}}}
+				if err := c04Seq(o, []string{u, base}[r.Intn(2)], lines, []string{u, base}, "extreme"); err != nil {
+					return err
+				}
+			}
+		case 1:
+			if err := c04TidySeq(o, r, []string{u, base, u}, "extreme"); err != nil {
+				return err
+			}
+		}
+		return c04One(o, r, u, v, "extreme")
+	}
+	// directed: plain products around the thresholds, every value
+	for _, d := range []struct {
+		t string
+		k int
+	}{{"ns", 33}, {"ns", 34}, {"ns", 35}, {"ns", 36}, {"ns", 41}, {"MB", 50}, {"MB", 51}, {"MB", 52}, {"MB", 53}, {"MB", 60}} {
+		u, base := join(rep(d.t, d.k), true)
+		for _, v := range vals {
+			if err := one(u, base, v); err != nil {
+				return err
+			}
+		}
+	}
+	// the scale leaves the range on the way and the real product does not: all ns first, then all MB (and the reverse)
+	for _, d := range [][2]int{{36, 54}, {40, 60}, {36, 10}, {2, 53}} {
+		for _, nsFirst := range []bool{true, false} {
+			toks := append(rep("ns", d[0]), rep("MB", d[1])...)
+			if !nsFirst {
+				toks = append(rep("MB", d[1]), rep("ns", d[0])...)
+			}
+			u, base := join(toks, true)
+			for i := 0; i < 6; i++ {
+				if err := one(u, base, vals[r.Intn(len(vals))]); err != nil {
+					return err
+				}
+			}
+		}
+	}
+	for i := 0; i < n; i++ {
+		var toks []string
+		kns, kmb := 0, 0
+		switch r.Intn(4) {
+		case 0:
+			kns = r.Range(30, 45)
+		case 1:
+			kmb = r.Range(45, 62)
+		case 2:
+			kns, kmb = r.Range(30, 45), r.Range(1, 60)
+		default:
+			kns, kmb = r.Range(1, 40), r.Range(45, 62)
+		}
+		toks = append(rep("ns", kns), rep("MB", kmb)...)
+		switch r.Intn(3) {
+		case 0: // interleaved: prefixes stay closer to 1
+			for a := len(toks) - 1; a > 0; a-- {
+				b := r.Intn(a + 1)
+				toks[a], toks[b] = toks[b], toks[a]
+			}
+		case 1: // MB first
+			toks = append(rep("MB", kmb), rep("ns", kns)...)
+		}
+		for j := r.Intn(4); j > 0; j-- { // other words in between
+			k := r.Intn(len(toks) + 1)
+			toks = append(toks[:k], append([]string{[]string{"x", "nsx", "MBps", "sec", "B", "Åns"}[r.Intn(6)]}, toks[k:]...)...)
+		}
+		u, base := join(toks, r.Chance(0.9))
+		v := vals[r.Intn(len(vals))]
+		if r.Chance(0.3) {
+			v = c04Value(r)
+		}
+		if err := one(u, base, v); err != nil {
+			return err
+		}
+	}
+	return nil
+}
+
+
+// ---------- benchstat tables: one table per metric, under its base unit ----------
+
+type c04TabInput struct {
+	Kind string `json:"kind"` // benchstat-tables
+	Text string `json:"text"` // Go-quoted
+}
+
+// c04Tab reads the text through ONE Reader and feeds every result to
+// benchstat's table builder (table by .config + unit, row by .fullname, column
+// by .file); observed: per table its unit, whether its assumption is
+// AssumeExact, and the number of values in its cells.
+func c04Tab(o *hx.Out, lines []c04SeqLine, tags ...string) (err error) {
+	defer func() {
+		if p := recover(); p != nil {
+			err = fmt.Errorf("PANIC-INPUT benchstat tables: %v", p)
+		}
+	}()
+	var sb strings.Builder
+	var items []hx.Sx
+	for _, l := range lines {
+		if l.unit {
+			sb.WriteString("Unit " + l.u + " assume=" + l.val + "\n")
+			items = append(items, hx.L(hx.I(1), hx.S(l.u), hx.S(l.val)))
+			continue
+		}
+		sb.WriteString("BenchmarkX 1")
+		var wr []hx.Sx
+		for i := range l.us {
+			sb.WriteString(" " + c04FmtFloat(l.vs[i]) + " " + l.us[i])
+			wr = append(wr, hx.L(hx.S(l.us[i]), hx.F64(l.vs[i])))
+		}
+		sb.WriteString("\n")
+		items = append(items, hx.L(hx.I(0), hx.List(wr)))
+	}
+	text := sb.String()
+	filter, err := benchproc.NewFilter("*")
+	if err != nil {
+		return err
+	}
+	var parser benchproc.ProjectionParser
+	tableBy, _, err := parser.ParseWithUnit(".config", filter)
+	if err != nil {
+		return err
+	}
+	rowBy, err := parser.Parse(".fullname", filter)
+	if err != nil {
+		return err
+	}
+	colBy, err := parser.Parse(".file", filter)
+	if err != nil {
+		return err
+	}
+	stat := bt.NewBuilder(tableBy, rowBy, colBy, parser.Residue())
+	rdr := benchfmt.NewReader(strings.NewReader(text), "f")
+	nres := 0
+	for rdr.Scan() {
+		if res, ok := rdr.Result().(*benchfmt.Result); ok {
+			nres++
+			stat.Add(res)
+		}
+	}
+	thr := benchmath.DefaultThresholds
+	tabs := stat.ToTables(bt.TableOpts{Confidence: 0.95, Thresholds: &thr, Units: rdr.Units()})
+	var ts []hx.Sx
+	for _, t := range tabs.Tables {
+		n := 0
+		for _, c := range t.Cells {
+			n += len(c.Sample.Values)
+		}
+		ts = append(ts, hx.L(hx.S(t.Unit), hx.Bool(t.Assumption == benchmath.Assumption(benchmath.AssumeExact)), hx.I(n)))
+	}
+	o.Count(fmt.Sprintf("benchstat-tables:tables=%d", len(tabs.Tables)))
+	o.Add(hx.L(hx.I(6), hx.List(items), hx.List(ts)), c04TabInput{Kind: "benchstat-tables", Text: strconv.Quote(text)},
+		"tab\x00"+text, true, append(tags, "benchstat-tables")...)
+	return nil
+}
+
+// c04GenTab: results of one metric written pre-scaled and in base units (and
+// bystanders), values incl. 0, -0 and +/-Inf, with "Unit .. assume=.." lines
+// naming either spelling, before or after the results.
+func c04GenTab(o *hx.Out, r *hx.Rng, n int) error {
+	fams := [][]string{{"ns/op", "sec/op"}, {"MB/s", "B/s"}, {"ns", "sec"}, {"MB*ns/op", "B*sec/op"}, {"x-ns", "x-sec"},
+		{"ns/ns", "sec/ns"}, {"MB/op", "B/op"}, {"MB", "B"}, {"ns*ns*ns*ns*ns/op", "sec*sec*sec*sec*sec/op"}}
+	other := []string{"B/op", "allocs/op", "op/ns", "nsx", "widgets", "sec/op"}
+	vals := []float64{0, math.Copysign(0, -1), math.Inf(1), math.Inf(-1), 1, 3, 1e9, 1e-9, 123.5, 5e-324, 1e300, 250}
+	for i := 0; i < n; i++ {
+		fam := fams[i%len(fams)]
+		var lines []c04SeqLine
+		unitLine := func() {
+			u := fam[r.Intn(2)]
+			if r.Chance(0.2) {
+				u = other[r.Intn(len(other))]
+			}
+			lines = append(lines, c04SeqLine{unit: true, u: u, val: []string{"exact", "exact", "nothing"}[r.Intn(3)]})
+		}
+		if r.Chance(0.5) {
+			unitLine()
+		}
+		for j := r.Range(2, 5); j > 0; j-- {
+			l := c04SeqLine{}
+			for k := r.Range(1, 3); k > 0; k-- {
+				u := fam[r.Intn(2)]
+				if r.Chance(0.25) {
+					u = other[r.Intn(len(other))]
+				}
+				dup := false
+				for _, x := range l.us { // one line does not carry one written unit twice
+					dup = dup || x == u
+				}
+				if dup {
+					continue
+				}
+				l.us = append(l.us, u)
+				l.vs = append(l.vs, vals[r.Intn(len(vals))])
+			}
+			lines = append(lines, l)
+			if r.Chance(0.25) {
+				unitLine()
+			}
+		}
+		if err := c04Tab(o, lines); err != nil {
+			return err
+		}
+	}
+	return nil
+}
+
 // c04GenSeq builds sequences of 2-4 results of one metric written differently
 // (and bystanders), with unit lines in between, for every choice of filter literal.
 func c04GenSeq(o *hx.Out, r *hx.Rng, n int) error {
@@ -1245,7 +1690,7 @@ var c04Comp = []string{"ns", "MB", "B", "sec", "op", "s", "bytes", "xns", "nsx",
 var c04Sep = []string{"/", "*", "-", " ", "\t", "\u00a0", "\u2028", "\u3000", "\u0085", "\v", "//", "*/", "/*", "\u1680", "\n", "\u200b", "\u2003"}
 
 func genC04(o *hx.Out, r *hx.Rng, tier string, replay string) error {
-	o.Rule = "units built from components {ns MB B sec op s bytes xns nsx MBps µs é nsMB '' invalid-UTF-8 …} joined by / * - and ASCII/Unicode white space (exhaustive over a small alphabet up to a bound, then random longer ones, plus the fast-path literals and near misses), each with values from {0,-0,±Inf,NaN,subnormal,max,…} and random bit patterns; observed: benchunit.Tidy (twice), benchfmt.Reader Values, UnitMetadataMap.Get, .unit filters; plus sequences of 2-4 results of one metric written under its written and its base unit in every order (with unit lines in between) read through ONE Reader and judged by ONE Filter (Match then Apply), each result independently; the same with .unit regexps and value lists (.unit:/re/, .unit:(a OR /re/ ...)) on lines of 2-4 measurements where one measurement is named only by its written unit and another by its base unit (regexp.MatchString recorded per (pattern, unit)); and benchunit.Tidy called directly in order within this process, first of all (empty memo table): a unit whose base form still contains ns/MB and then that base form (every order, repeated; fresh units through a unique denominator token), units with ns/MB directly after a letter whose UTF-8 encoding ends in 0x85/0xA0, and ns/MB after multi-byte white space; and units with MORE THAN FOUR normalisable numerator components (5-8, thorough 5-12 ns/MB numerator tokens mixed with other words, -suffix parts, denominators incl. ns/MB that must stay; base form known by construction), each through Tidy twice + reader + metadata + filters, through ONE reader next to the same metric written in base units, and through direct Tidy calls unit/base/unit; and texts LONGER than the line scanner's 4096-byte buffer (lines of one constant length L, a run of 4096/L+ lines of one unit crossing the boundary, then lines with a different unit of EQUAL written length in the same field position - e.g. ns/op then us/op, ms/op, 'B/op ' - and further lines after; whole-text and chunked io.Readers; 1-2 measurements per line; Unit lines) through ONE Reader and ONE Filter, every record judged when delivered AND the caller's retained copies (Result.Clone before/after Apply, *UnitMetadata) re-read after the whole text was scanned. non-trivial = the unit is rewritten; distinct by (unit, value bits)"
+	o.Rule = "units built from components {ns MB B sec op s bytes xns nsx MBps µs é nsMB '' invalid-UTF-8 …} joined by / * - and ASCII/Unicode white space (exhaustive over a small alphabet up to a bound, then random longer ones, plus the fast-path literals and near misses), each with values from {0,-0,±Inf,NaN,subnormal,max,…} and random bit patterns; observed: benchunit.Tidy (twice), benchfmt.Reader Values, UnitMetadataMap.Get, .unit filters; plus sequences of 2-4 results of one metric written under its written and its base unit in every order (with unit lines in between) read through ONE Reader and judged by ONE Filter (Match then Apply), each result independently; the same with .unit regexps and value lists (.unit:/re/, .unit:(a OR /re/ ...)) on lines of 2-4 measurements where one measurement is named only by its written unit and another by its base unit (regexp.MatchString recorded per (pattern, unit)); and benchunit.Tidy called directly in order within this process, first of all (empty memo table): a unit whose base form still contains ns/MB and then that base form (every order, repeated; fresh units through a unique denominator token), units with ns/MB directly after a letter whose UTF-8 encoding ends in 0x85/0xA0, and ns/MB after multi-byte white space; and units with MORE THAN FOUR normalisable numerator components (5-8, thorough 5-12 ns/MB numerator tokens mixed with other words, -suffix parts, denominators incl. ns/MB that must stay; base form known by construction), each through Tidy twice + reader + metadata + filters, through ONE reader next to the same metric written in base units, and through direct Tidy calls unit/base/unit; and texts LONGER than the line scanner's 4096-byte buffer (lines of one constant length L, a run of 4096/L+ lines of one unit crossing the boundary, then lines with a different unit of EQUAL written length in the same field position - e.g. ns/op then us/op, ms/op, 'B/op ' - and further lines after; whole-text and chunked io.Readers; 1-2 measurements per line; Unit lines) through ONE Reader and ONE Filter, every record judged when delivered AND the caller's retained copies (Result.Clone before/after Apply, *UnitMetadata) re-read after the whole text was scanned.; and units whose scale 10^(6#MB-9#ns), or a prefix of it in token order, is outside the binary64 range (30-45 ns, 45-62 MB numerator components around the thresholds 35/36 ns and 52 MB; sequential, interleaved, mixed) with every special value and finite values whose real product is representable (tag c04_factor_out_of_range decided from the input: simulation of the accumulated factor + exact comparison with the real product); GetBetter on an empty map and GetBetter/GetAssumption after 'Unit u better=.. assume=..' for u, its base unit and the units with built-in defaults (ns/op sec/op MB/s B/s MB/op B/op allocs/op); benchstat's tables (unit, assumption, number of values) over results of one metric written under both units with 'Unit .. assume=' lines naming either. non-trivial = the unit is rewritten; distinct by (unit, value bits)"
 	// table case: the rune class and float constants the model is evaluated with
 	o.Add(hx.L(hx.I(0), hx.List(unicodeRanges(unicode.IsSpace)), hx.F64(1e-9), hx.F64(1e6), hx.F64(1e9)),
 		map[string]string{"kind": "tables"}, "tables", false)
@@ -1264,6 +1709,14 @@ func genC04(o *hx.Out, r *hx.Rng, tier string, replay string) error {
 		nmany, kmax = 10000, 12
 	}
 	if err := c04GenMany(o, r, nmany, kmax); err != nil {
+		return err
+	}
+	// units whose scale (or a prefix of it) is outside the binary64 range
+	next := 250
+	if tier == "thorough" {
+		next = 6000
+	}
+	if err := c04GenExtreme(o, r.Split(), next); err != nil {
 		return err
 	}
 
@@ -1316,6 +1769,14 @@ func genC04(o *hx.Out, r *hx.Rng, tier string, replay string) error {
 		return err
 	}
 	if err := c04GenSeqF(o, r, nseq); err != nil {
+		return err
+	}
+	// benchstat tables over one metric written under both units
+	ntab := 150
+	if tier == "thorough" {
+		ntab = 4000
+	}
+	if err := c04GenTab(o, r.Split(), ntab); err != nil {
 		return err
 	}
 	// texts longer than the scanner's buffer (own stream: the cases before and after keep their inputs)
